@@ -8,11 +8,14 @@ theorem sliceFrom_of_split {α : Type} (site : String) (data pre suf : List Nat)
     (hd : data = pre ++ suf) (ha : a = pre.length) : sliceFrom site data a k = k suf := by
   subst hd; exact sliceFrom_append site pre suf a k ha
 
-theorem parseConnectHead_enc (level flags ka : Nat) (rest : List Nat) (hk : ka < 65536) :
+theorem parseConnectHead_enc (level flags ka : Nat) (rest : List Nat) (hk : ka < 65536)
+    (hfl : ¬ (flags % 2 ≠ 0 ∨ flags / 8 % 4 = 3 ∨ (flags / 4 % 2 = 0 ∧ flags / 8 % 8 ≠ 0))) :
     parseConnectHead level (connectBody level flags ka ++ rest) = .ok (flags, ka) 10 := by
   have : ka / 256 * 256 + ka % 256 = ka := by omega
-  simp [parseConnectHead, connectBody, encU16, idx_cons_zero, idx_cons_succ, this]
-  rw [if_neg (by omega), if_neg (by omega), if_neg (by omega), if_neg (by omega)]
+  unfold parseConnectHead connectBody encU16
+  simp only [List.cons_append, List.nil_append, List.length_cons, idx_cons_zero, idx_cons_succ]
+  rw [if_neg (by omega), if_neg (by simp), if_neg (by omega), if_neg (by simp), if_neg (by omega), if_neg hfl,
+    if_neg (by omega), this]
 
 /-- will part of the payload -/
 def willEnc (v5 : Bool) (t : ConnTail) : List Nat :=
@@ -207,16 +210,17 @@ theorem tailEnc_length (v5 : Bool) (flags : Nat) (t : ConnTail) (h : TailOk v5 f
 theorem connectFlagChecks_iff (flags : Nat) (wt wp un pwd : List Nat)
     (h : allOk (connectFlagChecks flags wt wp un pwd) = true) :
     (passwordFlag flags = true → userNameFlag flags = true) ∧ (willFlag flags = false → wt = [] ∧ wp = [])
-      ∧ (userNameFlag flags = false → un = []) ∧ (passwordFlag flags = false → pwd = []) := by
+      ∧ (userNameFlag flags = false → un = []) ∧ (passwordFlag flags = false → pwd = [])
+      ∧ ¬ (flags % 2 ≠ 0 ∨ flags / 8 % 4 = 3 ∨ (flags / 4 % 2 = 0 ∧ flags / 8 % 8 ≠ 0)) := by
   simp only [allOk, connectFlagChecks, List.all_cons, List.all_nil, Bool.and_true, Bool.and_eq_true,
-    Bool.or_eq_true, List.isEmpty_iff, Bool.not_eq_true'] at h
-  obtain ⟨_, _, _, _, hpu, ⟨hw, hu⟩, hp⟩ := h
-  refine ⟨?_, ?_, ?_, ?_⟩
+    Bool.or_eq_true, List.isEmpty_iff, Bool.not_eq_true', beq_iff_eq, decide_eq_true_eq, willFlag] at h
+  obtain ⟨_, hres, hq, hnw, hpu, ⟨hw, hu⟩, hp⟩ := h
+  refine ⟨?_, ?_, ?_, ?_, ?_⟩
   · intro a; rcases hpu with b | b
     · rw [a] at b; simp at b
     · exact b
   · intro a; rcases hw with b | b
-    · rw [a] at b; simp at b
+    · simp only [willFlag, beq_eq_false_iff_ne] at a; exact absurd b a
     · exact b
   · intro a; rcases hu with b | b
     · rw [a] at b; simp at b
@@ -224,6 +228,7 @@ theorem connectFlagChecks_iff (flags : Nat) (wt wp un pwd : List Nat)
   · intro a; rcases hp with b | b
     · rw [a] at b; simp at b
     · exact b
+  · rcases hnw with b | ⟨b1, b2⟩ <;> omega
 
 /-! ### CONNECT v3.1.1 -/
 
@@ -239,7 +244,7 @@ theorem Connect3.roundtrip (p : Connect3) (h : allOk p.checks = true) :
   unfold Connect3.checks at h
   rw [allOk_append] at h
   obtain ⟨hf, h2⟩ := h
-  obtain ⟨hpu, hnw, hnu, hnp⟩ := connectFlagChecks_iff _ _ _ _ _ hf
+  obtain ⟨hpu, hnw, hnu, hnp, hfl⟩ := connectFlagChecks_iff _ _ _ _ _ hf
   simp only [allOk, List.all_cons, List.all_nil, Bool.and_true, Bool.and_eq_true, beq_iff_eq,
     decide_eq_true_eq, binOk] at h2
   obtain ⟨hka, ⟨⟨⟨⟨⟨⟨hcid, hwt⟩, hwp⟩, _⟩, hun⟩, hpw⟩, _⟩, hrl, hmax⟩ := h2
@@ -258,7 +263,7 @@ theorem Connect3.roundtrip (p : Connect3) (h : allOk p.checks = true) :
   refine ⟨?_, henc, by rw [henc]; exact size_of_frame _ _ _ hmax hbl, hbl.symm⟩
   unfold Connect3.parse
   have hb : p.body = connectBody 4 p.flags p.keepAlive ++ tailEnc false p.flags p.tail := rfl
-  rw [hb, parseConnectHead_enc 4 p.flags p.keepAlive _ hka, bind_ok]
+  rw [hb, parseConnectHead_enc 4 p.flags p.keepAlive _ hka hfl, bind_ok]
   dsimp only
   rw [parseConnectTail_enc' false p.flags _ (connectBody 4 p.flags p.keepAlive) p.tail 10 htok rfl rfl, bind_ok]
   rw [← hb, hbl, vbiOf_le _ _ _ hmax]
@@ -279,7 +284,7 @@ theorem Connect5.roundtrip (p : Connect5) (h : allOk p.checks = true) :
   unfold Connect5.checks at h
   rw [allOk_append, allOk_append, allOk_append, propsChecks_iff] at h
   obtain ⟨⟨⟨hf, h2⟩, hpo, hpa, hpl, hplm⟩, h4⟩ := h
-  obtain ⟨hpu, hnw, hnu, hnp⟩ := connectFlagChecks_iff _ _ _ _ _ hf
+  obtain ⟨hpu, hnw, hnu, hnp, hfl⟩ := connectFlagChecks_iff _ _ _ _ _ hf
   simp only [allOk, List.all_cons, List.all_nil, Bool.and_true, Bool.and_eq_true, beq_iff_eq,
     decide_eq_true_eq, binOk, Bool.or_eq_true, List.isEmpty_iff] at h2 h4
   obtain ⟨hka, ⟨⟨⟨⟨⟨hcid, hwt⟩, hwp⟩, _⟩, hun⟩, hpw⟩, _⟩ := h2
@@ -308,7 +313,7 @@ theorem Connect5.roundtrip (p : Connect5) (h : allOk p.checks = true) :
   refine ⟨?_, henc, by rw [henc]; exact size_of_frame _ _ _ hmax hbl, hbl.symm⟩
   unfold Connect5.parse
   have hb : p.body = connectBody 5 p.flags p.keepAlive ++ (vbiEnc p.propLen ++ (Props.encode p.props ++ tailEnc true p.flags p.tail)) := rfl
-  rw [hb, parseConnectHead_enc 5 p.flags p.keepAlive _ hka, bind_ok]
+  rw [hb, parseConnectHead_enc 5 p.flags p.keepAlive _ hka hfl, bind_ok]
   dsimp only
   have hpp := parsePropsAt_enc "v5_0::connect::parse:props" validateConnectProps (connectBody 5 p.flags p.keepAlive)
     p.props (tailEnc true p.flags p.tail) 10 rfl hpo (by omega) (validateProps_none _ _ _ hpa)
